@@ -223,6 +223,11 @@ def handle (st : St) (fam : String) (rhs : String) : P Out := do
     expect "F"
     let n ← nat
     let files ← repeatP n (do let p ← bytes; let c ← bytes; pure (p, c))
+    -- `W <name>`: an earlier lookup made through the same settings value; resolution is a function of its
+    -- arguments, so the model ignores it
+    match (← peek?) with
+    | some "W" => let _ ← tok; let _ ← bytes; pure ()
+    | _ => pure ()
     expect "S"
     let tz ← bytes
     let fs : List Nat → Option (List Nat) := fun p => (files.find? (·.1 == p)).map (·.2)
